@@ -67,7 +67,15 @@ RegionFailing(ev) ==
              \cup (IF extra = {} THEN {} ELSE {<<Cardinality(extra), "region", "point_beyond_half_width_covered">>})
              \cup (IF Len(ev.samples) > 20 THEN {} ELSE {<<0, "region", "too_few_samples">>})
 
+\* [M] the centre line a simple path is saved from (element_center) lies on the exact curve
+\* spine + normal * offset(u), every section with its own offset interpolation, and spans it
+CenterFailing(ev) ==
+    (IF ev.err < 9 /\ ev.finite /\ ev.npts >= 2 THEN {} ELSE {<<0, "centre", "no_centre_line">>})
+    \cup (IF ev.dev_milli <= KClear THEN {} ELSE {<<0, "centre", "centre_line_strays_from_offset_curve">>})
+    \cup (IF ev.ends_milli <= KClear THEN {} ELSE {<<0, "centre", "centre_line_does_not_span_the_path">>})
+
 Check(ev) == CASE ev.e = "rpbook" -> BookFailing(ev)
+               [] ev.e = "rpcenter" -> CenterFailing(ev)
                [] ev.e = "rpxform" -> XformFailing(ev)
                [] ev.e = "rpcmd" -> CmdFailing(ev)
                [] ev.e = "rpregion" -> RegionFailing(ev)
